@@ -20,3 +20,9 @@ pub use relay::{
     PairingRequest, RelayHeader, RelayPacket, RelayPayload,
 };
 pub use scan::{ScanRequest, ScanResponse};
+
+/// Error for a wire message that lacks a field the binding
+/// type requires; decoding must fail rather than panic.
+pub(crate) fn missing_field() -> prost::DecodeError {
+    prost::DecodeError::new("missing required field")
+}
